@@ -448,7 +448,9 @@ class SpectralDensity(DFunction, UnitsManaged):
         t2 = other.axis
         if t1 == t2:
                       
-            f = SpectralDensity(t1, params=self.params)
+            # self.params are stored in internal units
+            with energy_units("int"):
+                f = SpectralDensity(t1, params=self.params)
             f.add_to_data(other)
             
         else:
@@ -499,7 +501,8 @@ class SpectralDensity(DFunction, UnitsManaged):
         
         """
         if self == other:
-            ocor = SpectralDensity(other.axis, other.params)
+            with energy_units("int"):
+                ocor = SpectralDensity(other.axis, other.params)
         else:
             ocor = other
             
@@ -573,7 +576,9 @@ class SpectralDensity(DFunction, UnitsManaged):
         """Creates a copy of the current correlation function
 
         """
-        return SpectralDensity(self.axis, self.params)
+        with energy_units("int"):
+            sd = SpectralDensity(self.axis, self.params)
+        return sd
 
 
     def get_CorrelationFunction(self, temperature=None, ta=None):
